@@ -218,14 +218,14 @@ def enabled_events(tracks, w, kinds=None):
             keys.append(("score", 2.5))
             keys.append(("score", 0.0))
         keys.append(("note", 1.0))  # unregistered key
-        keys.append(("time", 1))
-        keys.append(("track_id", 1))
-        keys.append(("lineage_id", 1))
+        f = tracks.features
+        for k in sorted({"time", "track_id", "lineage_id", f.time_key, f.tracklet_key, f.lineage_key} - {None}):
+            keys.append((k, 1))
         keys.append(("area", 3.0))
         keys.append(("iou", 0.5))
         keys.append(("circularity", 0.5))
         if w["pos"] == "single":
-            keys.append(("pos", [9.0] * (w["ndim"] - 1)))
+            keys.append((w["keys"]["pos"], [9.0] * (w["ndim"] - 1)))
         for n in nodes[:3]:
             for k, val in keys:
                 ev.append(("set_attr", n, k, val))
